@@ -1,4 +1,4 @@
-import LowProofs.Lemmas.C17Main
+import LowProofs.Lemmas.C17Final
 /-
   C17 -- ShardByPrefix: bounded contiguous shards with ordered, unique prefixes.
   Only the property theorems and their non-vacuity examples live here; helpers are in Lemmas/C17*.lean
@@ -55,5 +55,55 @@ theorem C17_lcp (keys : List (List Nat)) (maxSize : Int) (hne : keys ≠ [])
   obtain ⟨rfl, rfl⟩ := h
   intro j hj
   exact (valid_index _ _ _ _ _ _ hv j hj).2.2
+
+/-- order: the shard prefixes `keys[B[j]][:L[j]]` are strictly ascending in byte order … -/
+theorem C17_order (keys : List (List Nat)) (maxSize : Int) (hne : keys ≠ [])
+    (hasc : strictAsc keys = true) (hok : ∀ k ∈ keys, BytesOK k) (hm : 1 ≤ maxSize)
+    (L B : List Nat) (h : shardByPrefix keys maxSize = some (L, B)) :
+    strictAsc ((List.range L.length).map fun j => (keys.getD (B.getD j 0) []).take (L.getD j 0)) = true := by
+  obtain ⟨Ls, Bs, h', hv, hp⟩ := shard_ordered keys maxSize hne hasc hok hm
+  rw [h'] at h
+  simp only [Option.some.injEq, Prod.mk.injEq] at h
+  obtain ⟨rfl, rfl⟩ := h
+  rw [PL_eq_map keys Ls Bs 0 (valid_length _ _ _ _ _ _ hv)]
+  exact strictAsc_of_pairwise _ hp
+
+/-- … hence pairwise distinct. -/
+theorem C17_unique (keys : List (List Nat)) (maxSize : Int) (hne : keys ≠ [])
+    (hasc : strictAsc keys = true) (hok : ∀ k ∈ keys, BytesOK k) (hm : 1 ≤ maxSize)
+    (L B : List Nat) (h : shardByPrefix keys maxSize = some (L, B)) :
+    ((List.range L.length).map fun j => (keys.getD (B.getD j 0) []).take (L.getD j 0)).Pairwise (· ≠ ·) := by
+  have := pairwise_of_strictAsc _ (C17_order keys maxSize hne hasc hok hm L B h)
+  refine this.imp ?_
+  intro a b hab e
+  exact bytesCompare_irrefl a (by rw [← e] at hab; exact hab)
+
+/-- All clauses at once, through the checkable predicate `shardOK` of `LowModel/Spec.lean` (the predicate the
+    correspondence harness evaluates on the Go result): no panic, shape, size, lcp and strict order. -/
+theorem C17_shardByPrefix (keys : List (List Nat)) (maxSize : Int) (hne : keys ≠ [])
+    (hasc : strictAsc keys = true) (hok : ∀ k ∈ keys, BytesOK k) (hm : 1 ≤ maxSize) :
+    ∃ L B, shardByPrefix keys maxSize = some (L, B) ∧ shardOK keys maxSize.toNat L B = true := by
+  obtain ⟨Ls, Bs, h, hpost⟩ := shard_ordered keys maxSize hne hasc hok hm
+  exact ⟨Ls, 0 :: Bs, h, shardOK_of_post keys maxSize.toNat Ls Bs hpost⟩
+
+/-! non-vacuity: a key list with a key that is the common prefix of its successors, NUL bytes and a
+    split that restarts (`maxSize = 2`) -/
+example : strictAsc [[97], [97, 0], [97, 1], [98], [98, 1, 1], [98, 1, 2], [98, 2]] = true := by decide
+example : ∀ k ∈ ([[97], [97, 0], [97, 1], [98], [98, 1, 1], [98, 1, 2], [98, 2]] : List (List Nat)), BytesOK k := by
+  simp [BytesOK]
+example : shardByPrefix [[97], [97, 0], [97, 1], [98], [98, 1, 1], [98, 1, 2], [98, 2]] 2 =
+    some ([1, 2, 2, 1, 2, 2], [0, 1, 2, 3, 4, 6, 7]) := by
+  have h : firstDiffBits [[97], [97, 0], [97, 1], [98], [98, 1, 1], [98, 1, 2], [98, 2]] =
+      some [8, 15, 6, 8, 22, 14] := by decide
+  simp [shardByPrefix, h, shardDfs, shardEach, shardScan]
+example : shardOK [[97], [97, 0], [97, 1], [98], [98, 1, 1], [98, 1, 2], [98, 2]] 2
+    [1, 2, 2, 1, 2, 2] [0, 1, 2, 3, 4, 6, 7] = true := by decide
+example : shardByPrefix [[97], [97, 0], [97, 1], [98], [98, 1, 1], [98, 1, 2], [98, 2]] 3 =
+    some ([1, 1, 2, 2], [0, 3, 4, 6, 7]) := by
+  have h : firstDiffBits [[97], [97, 0], [97, 1], [98], [98, 1, 1], [98, 1, 2], [98, 2]] =
+      some [8, 15, 6, 8, 22, 14] := by decide
+  simp [shardByPrefix, h, shardDfs, shardEach, shardScan]
+/-- the order clause is not implied by shape/size/lcp: a valid-looking partition with unordered prefixes -/
+example : shardOK [[97], [97, 98], [98]] 2 [1, 0] [0, 1, 3] = false := by decide
 
 end Low
